@@ -2,6 +2,8 @@ package rux
 
 // C14, router clause (uses only the cache's own API).
 
+import "strconv"
+
 // After a dynamic request has been resolved with caching enabled, the entry
 // for exactly that method and path is present and the repeat is a cache hit.
 func verifHarness_C14_routerRepeat() {
@@ -77,4 +79,22 @@ func verifHarness_C14_capacity() {
 	verifAssert(bounded, "the cache never holds more entries than the configured capacity, whatever the order of the options")
 	verifAssert(stored, "every resolved dynamic request is stored under its method and path (also a long one) and its repeat is served from the cache")
 	verifCover("C14 capacity")
+}
+
+// The largest capacity the option type admits: the cache still never holds
+// more entries than that (65 540 distinct keys are stored).
+func verifHarness_C14_largest() {
+	const capacity = 65535
+	c := NewCachedRoutes(capacity)
+	rt := &Route{name: "r"}
+	over := false
+	for i := 0; i < capacity+5; i++ {
+		c.Set("k"+strconv.Itoa(i), rt)
+		if c.Len() > capacity {
+			over = true
+		}
+	}
+	verifAssert(!over && c.Len() == capacity, "at the largest capacity the cache holds exactly that many entries after more were stored")
+	verifAssert(!c.Has("k0") && c.Has("k"+strconv.Itoa(capacity+4)), "the oldest entries were evicted, the newest is present")
+	verifCover("C14 largest capacity")
 }
